@@ -2,6 +2,7 @@
 from lib.facts import norm, place_fields, direct_place, nophi, const_int
 from lib import tables
 
+INLINE = True      # crate-local helpers the rules do not know by name are inlined into their callers (lib/inline.py)
 EXPLANATION = (
     "R15.1 field-wise merge: in BenchOptions::overwrite(self, other) every field of the ADT (enumerated from the type, "
     "so a new field cannot be forgotten) derives only from self.f and other.f and is combined self-first (Option::or / "
@@ -918,7 +919,7 @@ def r15_9(ctx, prog, crate):
         for bi in blocks:
             for s in b.blocks[bi]["stmts"]:
                 if s["k"] == "assign" and s["rv"]["k"] == "use" and s["rv"]["o"]["k"] == "const" and s["rv"]["o"]["c"].get("promoted", -1) >= 0:
-                    pb = prog.promoted(b, s["rv"]["o"]["c"]["promoted"])
+                    pb = prog.promoted(b, s["rv"]["o"]["c"]["promoted"], s["rv"]["o"]["c"])
                     if pb is None:
                         return None
                     for bj, sj, sd in pb.stmts(live_only=False):
